@@ -177,6 +177,10 @@ def fan_out(check, base_seed, tier, budget_s, jobs, chunk, max_runs=None, chunk_
         "features": set(), "chunks": 0,
     }
     next_idx = 0
+    known, _ = load_known()
+    per_class = {}
+    unknown_records = [0]
+    agg["class_counts"] = per_class
     active = {}  # rfd -> (pid, start, t0, buf)
     stop_new = False
     while True:
@@ -230,13 +234,22 @@ def fan_out(check, base_seed, tier, budget_s, jobs, chunk, max_runs=None, chunk_
             agg["features"] |= out["features"]
             for k, v in out["stats"].items():
                 agg["stats"][k] = agg["stats"].get(k, 0) + v
-            agg["violations"].extend(out["violations"])
+            for rec in out["violations"]:
+                # keep a few records per class; only classes that are not listed known findings can stop the search
+                classes = {vclass(x) for x in rec["violations"]}
+                fresh = [c for c in classes if per_class.get(c, 0) < 6]
+                for c in classes:
+                    per_class[c] = per_class.get(c, 0) + 1
+                if fresh:
+                    agg["violations"].append(rec)
+                if any((check.PROP, c) not in known for c in classes):
+                    unknown_records[0] += 1
             if len(agg["samples"]) < 3:
                 agg["samples"].extend(out["samples"][: 3 - len(agg["samples"])])
             agg["harness_errors"].extend(out["harness_errors"])
             if out["harness_errors"]:
                 stop_new = True
-            if len(agg["violations"]) >= 60:
+            if unknown_records[0] >= 40:
                 stop_new = True
         now = time.time()
         for rfd, ent in list(active.items()):
@@ -487,7 +500,7 @@ def main_check(check, tier=None):
     for cls, recs in sorted(by_class.items()):
         if (check.PROP, cls) in known:
             print(f"KNOWN-FINDING: property={check.PROP} class={cls} {known[(check.PROP, cls)]} "
-                  f"[seen in {len(recs)} runs]")
+                  f"[seen in {agg.get('class_counts', {}).get(cls, len(recs))} runs]")
         else:
             new_classes.append(cls)
     prefer = os.environ.get("VERIF_PREFER")
